@@ -629,7 +629,7 @@ def vote_diagnosis(case):
         return None
 
 
-def judge(case, res):
+def judge(case, res, station_check=True):
     """The property text applied to one pipeline result.  Returns None (holds) or (class, expected, observed, detail)."""
     comps = linked_components([s for s in case['vis'] if len(set(s)) >= 2])
     pre = 'exact_ippe_' if res.get('exact_ippe') else ''
@@ -647,9 +647,12 @@ def judge(case, res):
         return (pre + 'pipeline_raises_' + res.get('exc', '?'), 'poses', '%s: %s' % (res.get('exc'), res.get('msg')),
                 'stage %s' % res['stage'])
     bad_acc = not (res['max_pos_err'] <= TOL_POS and res['max_rot_err'] <= TOL_ROT)
-    if res['ids_answered'] != expected_ids(case):
-        return (pre + 'station_set_wrong', expected_ids(case), res['ids_answered'], '')
-    obs = {'max_pos_err_m': res['max_pos_err'], 'max_rot_err_rad': res['max_rot_err'], 'worst': res['worst'],
+    missing = res['ids_answered'] != expected_ids(case)
+    if missing and station_check:
+        return (pre + 'station_set_wrong', expected_ids(case), res['ids_answered'],
+                'samples matched %s, kept %s' % (res.get('n_matched'), res.get('n_cleaned')))
+    obs = {'stations_expected': expected_ids(case), 'stations_answered': res['ids_answered'],
+           'max_pos_err_m': res['max_pos_err'], 'max_rot_err_rad': res['max_rot_err'], 'worst': res['worst'],
            'solver_success': res.get('success'), 'initial_guess_bs_err': res.get('guess_bs'),
            'initial_guess_cf_err': res.get('guess_cf'), 'samples_matched': res.get('n_matched'),
            'samples_kept': res.get('n_cleaned')}
@@ -704,6 +707,13 @@ def judge_with_premise(case, res):
                 'the premises of C09_vote_sufficient_partial / C09_choose_sufficient_partial hold for every station pair '
                 'and sample of this room (evaluated from the truth), so the decision logic must pick the true candidates; '
                 + str(j[3])), pr
+    if j and pr['holds'] is False and j[0] == 'station_set_wrong' and res.get('n_cleaned') != res.get('n_matched'):
+        # stations are missing because error-free samples were discarded (the only samples linking them): with the
+        # premise failing this is the discard / wrong-vote mechanism, classified like any other wrong answer
+        j2 = judge(case, res, station_check=False)
+        if j2 is not None:
+            j = (j2[0], j2[1], j2[2], str(j2[3]) + '; stations %s not answered (their samples were discarded)' % sorted(
+                set(expected_ids(case)) - set(res['ids_answered'])))
     if j and pr['holds'] is False:
         if j[0] == 'linked_system_rejected':
             return ('linked_system_rejected_links_discarded', j[1], j[2], str(j[3]) + '; premise violated: ' + str(pr['why'])), pr
